@@ -97,6 +97,21 @@ def execute(program, ctx, mode):
 
     events = []
     zr.notify = lambda ev: events.append(ev)
+    shapeno = [0]
+
+    def shaped(req):
+        """the `required` argument as a list, a tuple, a one-shot iterator or a generator, in rotation"""
+        shapeno[0] += 1
+        sh = shapeno[0] % 4
+        if sh == 1:
+            return tuple(req)
+        if sh == 2:
+            ctx.probe('required-as-one-shot-iterator')
+            return iter(list(req))
+        if sh == 3:
+            ctx.probe('required-as-one-shot-iterator')
+            return (x for x in list(req))
+        return list(req)
 
     def mk(name, bases=()):
         return InterfaceClass(name, tuple(bases) or (Interface,), {}, __module__='zisim.c')
@@ -515,7 +530,7 @@ def execute(program, ctx, mode):
             kw = {}
             if not op['event']:
                 kw['event'] = False
-            required = [REQ[i] for i in rq]
+            required = shaped([REQ[i] for i in rq])
             if name == 'regA':
                 p = op['p'] % 3
                 n = NAMES[op['n'] % 3]
@@ -573,7 +588,7 @@ def execute(program, ctx, mode):
             if removes:
                 want.append(('U', 'AdapterRegistration', lambda r, cur=cur, p=p, n=n: r.factory == cur and r.provided is PP[p] and r.name == n))
                 del m['adapters'][(rq, p, n)]
-            ret = comp.unregisterAdapter(f, [REQ[i] for i in rq], PP[p], n)
+            ret = comp.unregisterAdapter(f, shaped([REQ[i] for i in rq]), PP[p], n)
             ctx.log(step, 'unregA', c, None if f is None else f.lab, [REQL[i] for i in rq], p, n, ret)
             if bool(ret) != removes:
                 ctx.violation('C16', 'return', 'C16|unregisterAdapter|return-value', {'c': c, 'ret': ret, 'want': removes})
@@ -606,6 +621,7 @@ def execute(program, ctx, mode):
             required = [REQ[i] for i in rq]
             if f is None and not required:
                 continue
+            required = shaped(required)
             if name == 'unregS':
                 ret = comp.unregisterSubscriptionAdapter(f, required, PP[p])
                 cls = 'SubscriptionRegistration'
